@@ -16,7 +16,11 @@ out = []
 for ev in hist:
     if ev[0] == "define":
         try:
-            type(str(ev[2]), (Command,), {"__module__": ev[1], "execute": lambda self, **kw: None})
+            bases = (Command,)
+            if len(ev) > 3:     # a class that extends an already registered command of the same name
+                cands = [i.command for i in Command.get_commands() if i.command.name == ev[2]]
+                bases = (cands[0],) if cands else bases
+            type(str(ev[2]), bases, {"__module__": ev[1], "execute": lambda self, **kw: None})
             out.append(["defined"])
         except Exception as ex:
             out.append(["define-error", type(ex).__name__])
